@@ -80,7 +80,7 @@ def work_orders(task):
     import itertools
     acc = common.Acc()
     base, count = task
-    ops = ('fmt', 'lower', 'upper', 'padded')
+    ops = ('fmt', 'lower', 'upper', 'padded', 'bad_fmt', 'bad_parse')
     seqs = [s for n in (1, 2, 3) for s in itertools.permutations(ops, n)]
     i = 0
     for rep in range(count):
@@ -103,9 +103,30 @@ def work_orders(task):
                     elif op == 'upper':
                         got = a5.hex_to_u64(want.upper())
                         ok = got == n
-                    else:
+                    elif op == 'padded':
                         got = a5.hex_to_u64('00' + want)
                         ok = got == n
+                    elif op == 'bad_fmt':
+                        # outside the domain: may raise or not, but must leave nothing behind for the next call
+                        try:
+                            a5.u64_to_hex((1 << 64) + (n & 0xff))
+                        except Exception:
+                            pass
+                        try:
+                            a5.u64_to_hex(-1 - (n & 0xf))
+                        except Exception:
+                            pass
+                        got, ok = None, True
+                    else:
+                        try:
+                            a5.hex_to_u64('xyz' + want[:3])
+                        except Exception:
+                            pass
+                        try:
+                            a5.hex_to_u64('')
+                        except Exception:
+                            pass
+                        got, ok = None, True
                 except Exception as e:
                     got, ok = repr(e), False
                 if not ok:
